@@ -6,7 +6,8 @@ open Humphrey Humphrey.Driver
 
 def dispatch (fn : String) (args : List String) (impl : String) : Option Verdict :=
   match fn, args with
-  | "glob", [p, t] =>
+  -- `route`: the same question asked through `String::route_matches` (route.rs), the entry point routing uses
+  | "route", [p, t] | "glob", [p, t] =>
     match (unhex p).bind utf8?, (unhex t).bind utf8? with
     | some p, some t =>
       let m := boolStr (Glob.wildcardMatch p.toList t.toList)
